@@ -40,10 +40,43 @@ def configs(tier):
             for a in zero:
                 cell[a] = 0
             n = int(rng.integers(1, 6))
-            pos = rng.integers(0, 4, (n, 3)).tolist()
-            pos = [list(p) for p in {tuple(p) for p in pos}]
+            # atoms: fractional coordinates inside the cell along the non-zero vectors, a small integer offset along the
+            # zero (non-periodic) directions; "the cell" is the segment / parallelogram spanned by the non-zero vectors
+            nz = [a for a in range(3) if a not in zero]
+            base = np.array(zworld.CELLS[["cubic3", "triclinic", "sheared"][k % 3]])
+            full = base.copy()
+            for a in zero:
+                full[a] = 0
+            pts = []
+            if nz:
+                ref = base.copy()
+                inside = zworld.inside_points(ref.tolist())
+                # lattice points of the full cell that are combinations of the kept vectors only
+                inv = np.linalg.inv(ref.astype(float))
+                for p_ in inside:
+                    f = np.array(p_) @ inv
+                    if all(abs(f[a]) < 1e-9 for a in zero):
+                        pts.append(p_)
+            if not pts:
+                pts = [[0, 0, 0]]
+            grid_cell = [list(map(int, p_)) for p_ in pts]
+            pos = []
+            for _ in range(n):
+                p_ = np.array(pts[int(rng.integers(len(pts)))])
+                # offset orthogonal to the kept vectors (the atom stays above/below the cell, not beside it)
+                if len(nz) == 2:
+                    orth = np.cross(base[nz[0]], base[nz[1]])
+                elif len(nz) == 1:
+                    v = base[nz[0]]
+                    orth = np.array([-v[1], v[0], 0]) if (v[0] or v[1]) else np.array([0, -v[2], v[1]])
+                else:
+                    orth = np.zeros(3, dtype=int)
+                g_ = int(np.gcd.reduce(np.abs(orth))) if orth.any() else 1
+                off = int(rng.integers(0, 2)) * (orth // max(g_, 1))
+                pos.append((p_ + off).tolist())
+            pos = [list(p_) for p_ in {tuple(p_) for p_ in pos}]
             out.append({"cellname": "degenerate%d" % i, "mult": 1, "cell": cell.tolist(), "pbc": list(pbc), "pos": pos,
-                        "z": [6] * len(pos), "ext2x2": R2[(i + k) % len(R2)], "c2x2": 5, "k": k, "grid": pos, "degenerate": True})
+                        "z": [6] * len(pos), "ext2x2": R2[(i + k) % len(R2)], "c2x2": 5, "k": k, "grid": grid_cell, "degenerate": True})
     return out
 
 
